@@ -13,7 +13,13 @@ from edgegraph.structure import (  # noqa: E402
 
 
 class SV(Vertex):
-    """a plain Vertex subclass"""
+    """a plain Vertex subclass; str() / format() of an instance differ from its repr()"""
+
+    def __str__(self):
+        return "str-of-SV"
+
+    def __format__(self, spec):
+        return "fmt-of-SV"
 
 
 class FV(Vertex):
@@ -21,6 +27,9 @@ class FV(Vertex):
 
     def __bool__(self):
         return False
+
+    def __str__(self):
+        return "str-of-FV"
 
 
 class MX(Vertex):
